@@ -7,13 +7,16 @@ import (
 	"sort"
 	"strconv"
 	"strings"
+	"sync/atomic"
+	"time"
 
 	"github.com/yandex/pandora/examples/grpc/server"
 	"google.golang.org/grpc"
 	"google.golang.org/grpc/codes"
-	"google.golang.org/grpc/status"
 	"google.golang.org/grpc/metadata"
 	"google.golang.org/grpc/reflection"
+	"google.golang.org/grpc/stats"
+	"google.golang.org/grpc/status"
 	"google.golang.org/protobuf/encoding/protojson"
 	"google.golang.org/protobuf/proto"
 )
@@ -28,10 +31,13 @@ type Target struct {
 	// the asserted payload content.
 	FailShare bool
 	server.UnimplementedTargetServiceServer
-	rec  *Rec
-	name string
-	srv  *grpc.Server
-	Addr string
+	rec      *Rec
+	name     string
+	slowFor  time.Duration
+	track    bool
+	received int64
+	srv      *grpc.Server
+	Addr     string
 }
 
 func ownMetadata(k string) bool {
@@ -53,13 +59,70 @@ func StartGRPC(rec *Rec) *Target { return StartGRPCNamed(rec, "target", true) }
 // server that is configured as reflection endpoint only (reflect_port) but ALSO implements the service, so
 // that load calls routed to it are visible.  withReflection = false: a target that cannot be reflected on.
 func StartGRPCNamed(rec *Rec, name string, withReflection bool) *Target {
-	t := &Target{rec: rec, name: name}
-	t.srv = grpc.NewServer(grpc.UnaryInterceptor(t.intercept))
+	return StartGRPCOpts(rec, GRPCOpts{Name: name, Reflection: withReflection})
+}
+
+// GRPCOpts: TrackConns records the server's view of connections (grpc stats.Handler: ConnBegin / ConnEnd with a
+// connection id; every Recv and every reflection stream then carries the id of the connection it arrived on).
+// Addr: listen there ("" = 127.0.0.1:0), so that a target can be stopped and started again on the same port.
+// SlowFor: a Hello whose name starts with "slow" is answered after that long (or when the call is cancelled).
+type GRPCOpts struct {
+	Name       string
+	Reflection bool
+	TrackConns bool
+	Addr       string
+	SlowFor    time.Duration
+}
+
+type connKey struct{}
+
+var connSeq int64
+
+type connStats struct{ t *Target }
+
+func (h connStats) TagConn(ctx context.Context, _ *stats.ConnTagInfo) context.Context {
+	return context.WithValue(ctx, connKey{}, int(atomic.AddInt64(&connSeq, 1)))
+}
+func (h connStats) HandleConn(ctx context.Context, s stats.ConnStats) {
+	id, _ := ctx.Value(connKey{}).(int)
+	switch s.(type) {
+	case *stats.ConnBegin:
+		h.t.rec.Emit(E{"ev": "ConnBegin", "srv": h.t.name, "conn": id})
+	case *stats.ConnEnd:
+		h.t.rec.Emit(E{"ev": "ConnEnd", "srv": h.t.name, "conn": id})
+	}
+}
+func (h connStats) TagRPC(ctx context.Context, _ *stats.RPCTagInfo) context.Context { return ctx }
+func (h connStats) HandleRPC(context.Context, stats.RPCStats)                       {}
+
+func StartGRPCOpts(rec *Rec, o GRPCOpts) *Target {
+	t := &Target{rec: rec, name: o.Name, slowFor: o.SlowFor, track: o.TrackConns}
+	opts := []grpc.ServerOption{grpc.UnaryInterceptor(t.intercept)}
+	if o.TrackConns {
+		opts = append(opts, grpc.StatsHandler(connStats{t}), grpc.StreamInterceptor(
+			func(srv interface{}, ss grpc.ServerStream, info *grpc.StreamServerInfo, h grpc.StreamHandler) error {
+				id, _ := ss.Context().Value(connKey{}).(int)
+				t.rec.Emit(E{"ev": "ReflCall", "srv": t.name, "conn": id, "method": info.FullMethod})
+				return h(srv, ss)
+			}))
+	}
+	t.srv = grpc.NewServer(opts...)
 	server.RegisterTargetServiceServer(t.srv, t)
-	if withReflection {
+	if o.Reflection {
 		reflection.Register(t.srv)
 	}
-	l, err := net.Listen("tcp", "127.0.0.1:0")
+	addr := o.Addr
+	if addr == "" {
+		addr = "127.0.0.1:0"
+	}
+	var l net.Listener
+	var err error
+	for i := 0; i < 50; i++ { // a port that was just released may need a moment
+		if l, err = net.Listen("tcp", addr); err == nil {
+			break
+		}
+		time.Sleep(20 * time.Millisecond)
+	}
 	if err != nil {
 		panic(err)
 	}
@@ -69,6 +132,9 @@ func StartGRPCNamed(rec *Rec, name string, withReflection bool) *Target {
 }
 
 func (t *Target) Stop() { t.srv.Stop() }
+
+// Received: unary calls received so far.
+func (t *Target) Received() int64 { return atomic.LoadInt64(&t.received) }
 
 func (t *Target) intercept(ctx context.Context, req interface{}, info *grpc.UnaryServerInfo, h grpc.UnaryHandler) (interface{}, error) {
 	msg := map[string]interface{}{}
@@ -119,11 +185,25 @@ func (t *Target) intercept(ctx context.Context, req interface{}, info *grpc.Unar
 	}
 	// "/target.TargetService/Hello" -> "target.TargetService.Hello" (the form ammo uses)
 	m := strings.Replace(strings.TrimPrefix(info.FullMethod, "/"), "/", ".", 1)
-	t.rec.Emit(E{"ev": "Recv", "proto": "grpc", "srv": t.name, "method": m, "fields": fields, "md": mds, "toks": toks})
+	atomic.AddInt64(&t.received, 1)
+	conn := 0
+	if t.track {
+		conn, _ = ctx.Value(connKey{}).(int)
+	}
+	t.rec.Emit(E{"ev": "Recv", "proto": "grpc", "srv": t.name, "conn": conn, "method": m, "fields": fields, "md": mds, "toks": toks})
 	return h(ctx, req)
 }
 
 func (t *Target) Hello(ctx context.Context, r *server.HelloRequest) (*server.HelloResponse, error) {
+	if t.slowFor > 0 && strings.HasPrefix(r.GetName(), "slow") {
+		select {
+		case <-time.After(t.slowFor):
+		case <-ctx.Done():
+			// the caller's deadline (propagated by grpc) is over: a real server's work is cancelled, it does not
+			// answer OK at the very moment the deadline fires
+			return nil, status.FromContextError(ctx.Err()).Err()
+		}
+	}
 	return &server.HelloResponse{Hello: "Hello " + r.GetName() + "!"}, nil
 }
 
